@@ -4,7 +4,7 @@ use crate::p_duration::{safe, NPC};
 use crate::p_epoch::{leap_entries, ns_dur, safe_epoch, EpGen, EXACT, NS_DAY, NS_S};
 use crate::rec::*;
 use crate::rng::Rng;
-use hifitime::{Duration, Epoch, TimeScale, TimeSeries, Weekday};
+use hifitime::{Duration, Epoch, TimeScale, TimeSeries, Unit, Weekday};
 
 pub struct SM<'a> {
     pub rec: &'a mut Rec,
@@ -156,6 +156,18 @@ pub fn c15(rec: &mut Rec, lm: &Landmarks, rng: &mut Rng, thorough: bool) {
                             }
                         }
                     }
+                }
+            }
+        }
+    }
+    // spans of exactly the largest duration (no bound is hit: MIN..0 and 0..MAX): the offsets k * step leave the
+    // range of durations after a few items, and the series must still end
+    for (sv, ev) in [(Duration::MIN, Duration::ZERO), (Duration::ZERO, Duration::MAX)] {
+        for sts in [TimeScale::TAI, TimeScale::GPST, TimeScale::UTC] {
+            for step in [Duration::MAX, 16_384i64 * Unit::Century, 10_923i64 * Unit::Century, 8_192i64 * Unit::Century + 1i64 * Unit::Nanosecond] {
+                for incl in [false, true] {
+                    m.series_new(Epoch::from_duration(sv, sts), Epoch::from_duration(ev, sts), step, incl);
+                    m.drain(12);
                 }
             }
         }
